@@ -24,13 +24,13 @@ O == INSTANCE RequestObs WITH HostOrder <- HostSeq, NumConns <- 1, StreamLimit <
 Empty == [x \in {} |-> 0]
 
 Init == /\ rq = Empty
-        /\ conn = [b \in 1..NHosts |-> [h |-> HostName(b), alive |-> TRUE, fresh |-> FALSE]]
+        /\ conn = [b \in 1..NHosts |-> [h |-> HostName(b), alive |-> TRUE, fresh |-> FALSE, sess |-> "s"]]
         /\ out = {} /\ bad = <<>> /\ drops = 0 /\ nextb = NHosts + 1
 
 Submit ==
     LET r == Cardinality(DOMAIN rq) + 1 IN
     /\ r <= NReqs
-    /\ O!DoSubmit(r, 1, r, r \in IdemSet, "EXECUTE", r \in CachedSet, r)
+    /\ O!DoSubmit(r, 1, r, r \in IdemSet, "EXECUTE", r \in CachedSet, r, "s")
     /\ UNCHANGED <<drops, nextb>>
 
 Usable(h) == {b \in DOMAIN conn : conn[b].h = h /\ conn[b].alive}
@@ -52,7 +52,7 @@ ProxyPrep(r) ==
 ProxySendFail(r) ==
     /\ rq[r].ph = "exec"
     /\ \E h \in O!Hosts :
-          /\ O!Shaky(h) /\ Usable(h) = {}
+          /\ O!Shaky(h, "s") /\ Usable(h) = {}
           /\ O!TakeIsNext(rq[r], h) \/ O!TakeIsSame(rq[r], h) \/ ("prep" \in rq[r].must /\ h = rq[r].cur)
           /\ O!DoSendFail(r, h, "noconn")
     /\ UNCHANGED <<drops, nextb>>
@@ -80,7 +80,7 @@ EnvDrop ==
     /\ UNCHANGED nextb
 
 EnvReconnect ==
-    /\ \E h \in O!Hosts : Usable(h) = {} /\ O!DoConn(nextb, h, FALSE)
+    /\ \E h \in O!Hosts : Usable(h) = {} /\ O!DoConn(nextb, h, FALSE, "s")
     /\ nextb' = nextb + 1
     /\ UNCHANGED drops
 
